@@ -80,7 +80,7 @@ def run(ctx):
         if not entry.fit or not entry.rowwise:
             ctx.skipped.append("%s: %s" % (entry.name, entry.notes or "not a row-wise predictor (covered by C13 / C20)"))
             continue
-        for rep in range(4 if thorough else 2):
+        for rep in range(12 if thorough else 2):
             for weighted in ([False, True] if entry.name.split("[")[0] in supports_w else [False]):
                 if entry.name.startswith("KMeansL1L2") and weighted:
                     continue      # non-uniform weights: documented NotImplementedError for norm='L1'
